@@ -23,10 +23,21 @@ ReadOnly == InIds \ OutIds
 Known == InIds \subseteq DOMAIN heap /\ OutIds \subseteq DOMAIN heap
 Okay == Ev.r = "ok"
 
+\* Degenerate results.  Operands are taken with the dimensions they REPORT, so r x 0 and 0 x c operands (held by
+\* a class that can report them) have ordinary textbook results.  An output object reports a degenerate result
+\* the way its class can: RowMatrix shows 0 x c as 0 x 0, ColMatrix shows r x 0 as 0 x 0, LinearMatrix both as they are.
+HeldDims(cls, r, c) ==
+  IF (r = 0) = (c = 0) \/ cls = "L" THEN <<r, c>>
+  ELSE IF cls = "R" THEN (IF r = 0 THEN <<0, 0>> ELSE <<r, 0>>)
+  ELSE (IF c = 0 THEN <<0, 0>> ELSE <<0, c>>)
+AsHeld(cls, X) == IF (X.r = 0) = (X.c = 0) THEN X
+                  ELSE LET d == HeldDims(cls, X.r, X.c) IN Mk(d[1], d[2], LAMBDA i, j : 0)
+OutCls(o) == Ev.ocls[CHOOSE ix \in DOMAIN Ev.out : Ev.out[ix] = o]
+
 \* one MatrixTools call: conf / either / expect from the definitions, the rest from the log
 Call(name, conf, either, expect, resok) ==
   /\ IsEvent(name) /\ Known
-  /\ Step(name, conf, either, ReadOnly, expect, Ev.r, Logged, resok)
+  /\ Step(name, conf, either, ReadOnly, [o \in DOMAIN expect |-> AsHeld(OutCls(o), expect[o])], Ev.r, Logged, resok)
 
 TReset == IsEvent("Reset") /\ heap' = <<>> /\ out' = "ok" /\ last' = NoLast
 TNew   == IsEvent("New")  /\ heap' = Override(heap, One(Ev.o, Ev.m)) /\ out' = "ok" /\ last' = NoLast
@@ -81,9 +92,10 @@ TExtrema ==
       Pos(q) == <<q[1] + 1, q[2] + 1>> IN
   Call("Extrema", TRUE, FALSE, <<>>,
        Okay => /\ Par.sum = SumE(A)
-               /\ A.r >= 1 => /\ Par.max = MaxV(A) /\ Par.min = MinV(A)
-                              /\ \A k \in DOMAIN Par.wmax : Pos(Par.wmax[k]) \in ArgMax(A) /\ Par.wmax[k] = Par.wmax[1]
-                              /\ \A k \in DOMAIN Par.wmin : Pos(Par.wmin[k]) \in ArgMin(A) /\ Par.wmin[k] = Par.wmin[1])
+               /\ (A.r >= 1 /\ A.c >= 1) =>
+                     /\ Par.max = MaxV(A) /\ Par.min = MinV(A)
+                     /\ \A k \in DOMAIN Par.wmax : Pos(Par.wmax[k]) \in ArgMax(A) /\ Par.wmax[k] = Par.wmax[1]
+                     /\ \A k \in DOMAIN Par.wmin : Pos(Par.wmin[k]) \in ArgMin(A) /\ Par.wmin[k] = Par.wmin[1])
 
 \* linear assignment: a square cost matrix must be solved (optimal permutation + dual certificate),
 \* anything else must be refused
